@@ -1112,5 +1112,5 @@ def extra_coverage(stats) -> dict:
             "`inject` (engine refuses writes mid-backlog): oracle only; multi / mthreads (several objects at once): oracle only "
             "(every object's trace is compared with the trace of the same object alone, whose kind is replayed through the model "
             "by the one-object cases)",
-            "exhaustive": "thorough tier: complete grid 3x3 start delays x 4^4 per-write pauses for 2 senders x 2 chunks "
+            "exhaustive_over": "thorough tier: complete grid 3x3 start delays x 4^4 per-write pauses for 2 senders x 2 chunks "
             "(aclient with both lock kinds, bare endpoint)"}
